@@ -709,3 +709,120 @@ package render
 //@   focus product sum-is-at-least-twice-the-inner-radius
 //@   ensures [within-h-squared-over-eight-times-the-inner-radius] rad - nv <= sq(hh)/(8*(rad - hh))
 //@ end
+
+// C08: the same bound for marching squares on a circle
+//@ lemma triangle_inequality_2d(a v2.Vec, b v2.Vec)
+//@   property C08
+//@   let na = sqrt(a.Length2())
+//@   let nb = sqrt(b.Length2())
+//@   let ns = sqrt(a.Add(b).Length2())
+//@   let dot = a.Dot(b)
+//@   assert [norms] na >= 0 && nb >= 0 && ns >= 0 && sq(na) == a.Length2() && sq(nb) == b.Length2() && sq(ns) == a.Add(b).Length2()
+//@   assert [lagrange] sq(na)*sq(nb) - sq(dot) == sq(a.Cross(b))
+//@   assert [cauchy-schwarz] sq(dot) <= sq(na*nb)
+//@   focus norms cauchy-schwarz
+//@   assert [so] dot <= na*nb
+//@   unfocus
+//@   assert [expand] sq(ns) == sq(na) + sq(nb) + 2*dot
+//@   generalize dot
+//@   focus norms so expand
+//@   assert [squares] sq(ns) <= sq(na + nb)
+//@   focus norms squares
+//@   ensures [the-norm-of-a-sum-is-at-most-the-sum-of-the-norms] ns <= na + nb
+//@ end
+
+//@ lemma circle_gap_from_the_squared_gap(rad float64, nv float64, hh float64)
+//@   property C08
+//@   requires 0 <= nv && nv <= rad && 0 <= hh && hh < rad
+//@   requires sq(rad) - sq(nv) <= sq(hh)/4
+//@   requires nv >= rad - hh
+//@   assert [factor] sq(rad) - sq(nv) == (rad - nv)*(rad + nv)
+//@   assert [sum-is-at-least-twice-the-inner-radius] rad + nv >= 2*(rad - hh) && rad - hh > 0
+//@   assert [product] (rad - nv)*2*(rad - hh) <= sq(hh)/4
+//@   focus product sum-is-at-least-twice-the-inner-radius
+//@   ensures [within-h-squared-over-eight-times-the-inner-radius] rad - nv <= sq(hh)/(8*(rad - hh))
+//@ end
+
+// The vertex the cell code puts on an edge that crosses a circle about the
+// origin: with g(t) the distance of the point at parameter t from the centre,
+// the linear interpolant of g reaches R at the vertex, and
+//   (interpolant)^2 - g(t)^2 == t(1-t)(h^2 - (g1-g0)^2)
+// so the vertex is inside the circle by at most h^2/4 in squared radius.
+//@ lemma ms_endpoint_on_a_circle(p1 v2.Vec, p2 v2.Vec, rad float64)
+//@   property C08
+//@   requires rad > 0
+//@   prelet g0 = sqrt(p1.Length2())
+//@   prelet g1 = sqrt(p2.Length2())
+//@   prelet v1 = g0 - rad
+//@   prelet v2 = g1 - rad
+//@   requires v1 <= -1e-12 && v2 >= 1e-12
+//@   prelet hh = sqrt(p2.Sub(p1).Length2())
+//@   requires hh < rad
+//@   let h2 = p2.Sub(p1).Length2()
+//@   let v = merged(msInterpolate(p1, p2, v1, v2, 0))
+//@   let tt = merged(msInterpolate(v2.Vec{0, 0}, v2.Vec{1, 0}, v1, v2, 0)).X
+//@   assert [norms] g0 >= 0 && g1 >= 0 && sq(g0) == p1.Length2() && sq(g1) == p2.Length2()
+//@   assert [parameter] tt == (0 - v1)/(v2 - v1) && 0 <= tt && tt <= 1
+//@   assert [vertex-is-the-convex-combination] v == p1.Add(p2.Sub(p1).MulScalar(tt))
+//@   let nv = sqrt(v.Length2())
+//@   let far = sqrt(p2.Sub(v).Length2())
+//@   assert [edge-length] hh >= 0 && sq(hh) == h2
+//@   assert [more-norms] nv >= 0 && sq(nv) == v.Length2() && far >= 0 && sq(far) == p2.Sub(v).Length2()
+//@   focus vertex-is-the-convex-combination
+//@   assert [distance-to-the-outer-corner] p2.Sub(v).Length2() == sq(1 - tt)*h2
+//@   unfocus
+//@   use triangle_inequality_2d(v, p2.Sub(v))
+//@   assert [outer-corner-by-way-of-the-vertex] g1 <= nv + far
+//@   focus parameter distance-to-the-outer-corner more-norms edge-length
+//@   assert [squared-distance-to-the-outer-corner-at-most-the-squared-edge] sq(far) <= sq(hh)
+//@   assert [vertex-within-one-edge-of-the-outer-corner] far <= hh
+//@   focus requires
+//@   assert [outer-corner-not-inside] g1 >= rad && rad > 0
+//@   focus no-definitions outer-corner-not-inside outer-corner-by-way-of-the-vertex vertex-within-one-edge-of-the-outer-corner
+//@   assert [vertex-at-least-the-inner-radius-from-the-centre] nv >= rad - hh
+//@   focus requires parameter
+//@   assert [the-interpolated-distance-reaches-the-radius-at-the-vertex] (1 - tt)*g0 + tt*g1 == rad
+//@   assert [parameter-in-the-unit-interval] 0 <= tt && tt <= 1
+//@   unfocus
+//@   let nv2 = v.Length2()
+//@   let dot = p1.Dot(p2)
+//@   assert [edge-length-by-the-cosine-rule] h2 == sq(g0) + sq(g1) - 2*dot
+//@   focus norms
+//@   assert [lagrange] sq(g0)*sq(g1) - sq(dot) == sq(p1.Cross(p2))
+//@   assert [cauchy-schwarz] sq(dot) <= sq(g0)*sq(g1)
+//@   unfocus
+//@   generalize tt
+//@   focus vertex-is-the-convex-combination norms
+//@   assert [norm-of-the-vertex] nv2 == sq(1 - tt)*sq(g0) + sq(tt)*sq(g1) + 2*tt*(1 - tt)*dot
+//@   generalize v
+//@   generalize dot
+//@   focus norms edge-length-by-the-cosine-rule norm-of-the-vertex
+//@   assert [norm-squared-along-the-edge] nv2 == (1 - tt)*sq(g0) + tt*sq(g1) - tt*(1 - tt)*h2
+//@   focus norm-squared-along-the-edge the-interpolated-distance-reaches-the-radius-at-the-vertex
+//@   assert [gap-in-squared-radius] sq(rad) - nv2 == tt*(1 - tt)*(h2 - sq(g1 - g0))
+//@   focus norms cauchy-schwarz
+//@   assert [so] dot <= g0*g1
+//@   focus so edge-length-by-the-cosine-rule
+//@   assert [triangle-inequality] h2 - sq(g1 - g0) >= 0
+//@   focus parameter-in-the-unit-interval
+//@   assert [quarter] tt*(1 - tt) <= 0.25 && tt*(1 - tt) >= 0
+//@   focus triangle-inequality
+//@   assert [at-most-the-squared-edge] h2 - sq(g1 - g0) <= h2 && h2 >= 0
+//@   let fa = tt*(1 - tt)
+//@   let fb = h2 - sq(g1 - g0)
+//@   generalize fa
+//@   generalize fb
+//@   focus quarter triangle-inequality
+//@   assert [product-bounded-by-a-quarter-of-the-second-factor] fa*fb <= 0.25*fb && fa*fb >= 0
+//@   focus gap-in-squared-radius product-bounded-by-a-quarter-of-the-second-factor at-most-the-squared-edge
+//@   ensures [the-vertex-is-not-outside-the-circle] sq(rad) - nv2 >= 0
+//@   ensures [and-inside-by-at-most-a-quarter-of-the-squared-edge-in-squared-radius] sq(rad) - nv2 <= h2/4
+//@   assert [squared-gap] sq(rad) - nv2 >= 0 && sq(rad) - nv2 <= h2/4
+//@   focus squared-gap more-norms outer-corner-not-inside
+//@   assert [factored] (rad - nv)*(rad + nv) >= 0 && rad + nv > 0
+//@   focus factored
+//@   assert [vertex-inside] nv <= rad
+//@   focus requires squared-gap more-norms edge-length vertex-at-least-the-inner-radius-from-the-centre vertex-inside
+//@   use circle_gap_from_the_squared_gap(rad, nv, hh)
+//@   ensures [within-h-squared-over-eight-times-the-inner-radius-of-the-circle] rad - nv <= sq(hh)/(8*(rad - hh)) && rad - nv >= 0
+//@ end
